@@ -6,6 +6,7 @@ import (
 	"math"
 	"strings"
 	"time"
+	"unicode"
 
 	"github.com/hedzr/logg/slog"
 	errorsv3 "gopkg.in/hedzr/errors.v3"
@@ -95,6 +96,9 @@ func genMsgOrdinary() *rapid.Generator[string] {
 		}),
 		rapid.Map(rapid.IntRange(1025, 5000), func(n int) string { return strings.Repeat("long message ", n/13+1)[:n] }),
 		rapid.SampledFrom([]string{"", " ", "\t", "\n", " \r\n\t "}),
+		// messages that LOOK blank without being empty or made of blank, tab, CR, LF (the statement's "whitespace-only" is the
+		// library's strings.Trim set): vertical tab, form feed, no-break space, next line, a zero-width space
+		rapid.SampledFrom([]string{"\v", "\f", "\u00a0", "\u0085", " \v ", "\u200b", "\u2028", "\x00", " \f\n"}),
 	)
 }
 
@@ -501,4 +505,12 @@ func genArgItem(t *rapid.T, al *ArgList, depth int) {
 		al.Args = append(al.Args, "error", GenError(strs).Draw(t, "err"))
 		al.Labels["error-value"] = true
 	}
+}
+
+// LooksBlank reports whether a message consists of white space in the wide sense only (unicode.IsSpace, zero-width space,
+// byte-order mark) - or is empty. C02 says a blank Print/Println is "an empty or whitespace-only message"; the library
+// takes that as blank, tab, CR and LF. For the messages in between (vertical tab, form feed, no-break space, ...) both
+// readings are allowed: a check that needs a RECORD at the Always severity avoids them, C02 accepts either delivery.
+func LooksBlank(msg string) bool {
+	return strings.TrimFunc(msg, func(r rune) bool { return unicode.IsSpace(r) || r == 0x200b || r == 0xfeff }) == ""
 }
